@@ -13,7 +13,8 @@ The per-destination sequence of requests is observed through the ghost fields of
                   short confirmation / Data_Exchange response of the configured length),
 * `anyReply`    — any reply arrived, `count` — transmissions of it in a row without any reply,
 * `expectFirst` — no request went out yet since start-up or since the peripheral was declared offline,
-* `diagReq`     — the user called `request_diagnostics()` since the last request.
+* `diagReq`     — the user called `request_diagnostics()` since the last request (not needed any more
+                  since the repair c18fdc1; kept as an observation).
 Every theorem is stated for an arbitrary state satisfying the invariants `Inv` and `Inv8`, which every
 state reached by a contract history does (`reachable`), for all `max_retry_limit` 1..15, any number of
 peripherals in any slots, all reply kinds and user calls at every point.
@@ -73,18 +74,18 @@ theorem toggle_after_accept {fp : FdlParams} (hfp : FpOk fp) {g g' : G} (hI : In
   rw [(send_header hts).2.2.2.1, hJ.toggled hnf hacc k f0 hl]
   exact cyc_bits (hJ.kind k f0 hl).2
 
-/-- `same_fcb_only_retransmit` (characterised): if a request carries the same frame count bit as
-the previous request to that peripheral, then no acceptable reply arrived in between, and it is a
-request of the same service — *or* (open finding `K_C08_diagreq_retry`) the previous request was a
-Data_Exchange request, this one is a diagnostics request, and the user called
-`request_diagnostics()` in between. -/
-theorem same_fcb_only_retransmit_partial {fp : FdlParams} (hfp : FpOk fp) {g g' : G} (hI : Inv fp g) (h8 : Inv8 g)
+/-- `same_fcb_only_retransmit`: if a request carries the same frame count bit as the previous
+request to that peripheral, then no acceptable reply arrived in between, it is a request of the same
+service (same SAP pair and function) to the same destination, and the previous transmission is still
+counted as unanswered — i.e. it is a retransmission.  (Full strength since /repo c18fdc1; before that
+repair `request_diagnostics()` between an unanswered Data_Exchange request and its retransmission
+produced a diagnostics request with the same bit — finding K_C08_diagreq_retry, corpus/dp/06.) -/
+theorem same_fcb_only_retransmit {fp : FdlParams} (hfp : FpOk fp) {g g' : G} (hI : Inv fp g) (h8 : Inv8 g)
     {now : Int} {hp : Bool} (h : gstep fp g (.tx now hp) = .ok g')
     {i : Nat} {hd : Header} {pdu : Bytes} (ho : g'.o = .sent i hd pdu)
     (hnf : (g.sg i).expectFirst = false)
     {k : RKind} {f0 : FrameCountBit} (hl : (g.sg i).last = some (k, f0)) (hsame : fcbOf hd = f0) :
-    (g.sg i).accepted = false ∧
-      (reqKind hd = k ∨ (k = .dx ∧ reqKind hd = .diag ∧ (g.sg i).diagReq = true)) := by
+    (g.sg i).accepted = false ∧ reqKind hd = k := by
   obtain ⟨p, p', p0, _, _, hJ, hP, hts, _, _⟩ := send_step hfp hI h8 h ho
   have hf : p.fcb = f0 := by rw [← (send_header hts).2.2.2.1]; exact hsame
   have hk := (hJ.kind k f0 hl)
@@ -95,16 +96,35 @@ theorem same_fcb_only_retransmit_partial {fp : FdlParams} (hfp : FpOk fp) {g g' 
       have := hJ.toggled hnf hacc k f0 hl
       rw [hf] at this
       exact absurd this.symm (cyc_ne_self hk.2)
-  · obtain ⟨hst, hdn⟩ := hJ.snap hnf k f0 hl hf
+  · obtain ⟨hst, hdx⟩ := hJ.snap hnf k f0 hl hf
     have hkind := (send_kind_snap hts).1
-    rw [hkind, hk.1, hst]
-    rcases hdn with hdn | ⟨hdr, hdn⟩
-    · left; rw [hdn]
-    · cases hsd : (g.sg i).snapDiag with
-      | true => left; rw [hdn]
-      | false =>
-        rw [hdn]
-        cases hss : (g.sg i).snapState <;> simp [kindOfSnap, hdr]
+    rw [hkind, hk.1, ← hst]
+    by_cases hd' : p.state = .preDataExchange ∨ p.state = .dataExchange
+    · obtain ⟨hin, hre⟩ := hdx hd'
+      have : p.serviceIsDiag = (g.sg i).snapDiag := by
+        unfold Peripheral.serviceIsDiag
+        rw [if_neg (by omega), hin]
+      rw [this]
+    · cases hps : p.state with
+      | preDataExchange => exact absurd (Or.inl hps) hd'
+      | dataExchange => exact absurd (Or.inr hps) hd'
+      | offline => rfl
+      | waitForParam => rfl
+      | waitForConfig => rfl
+      | validateConfig => rfl
+
+/-- The statement over whole histories, in the form it was refuted before the repair. -/
+def same_fcb_only_retransmit_full : Prop :=
+  ∀ (fp : FdlParams), FpOk fp → ∀ (slots : List (Option Peripheral)), InitOk fp slots →
+  ∀ (gr : Bool) (ops : List Op) (g g' : G) (now : Int) (hp : Bool) (i : Nat) (hd : Header) (pdu : Bytes)
+    (k : RKind) (f0 : FrameCountBit),
+    grun fp (G.init slots gr) ops = .ok g → gstep fp g (.tx now hp) = .ok g' → g'.o = .sent i hd pdu →
+    (g.sg i).expectFirst = false → (g.sg i).last = some (k, f0) → fcbOf hd = f0 → reqKind hd = k
+
+theorem same_fcb_only_retransmit_full_holds : same_fcb_only_retransmit_full := by
+  intro fp hfp slots hinit gr ops g g' now hp i hd pdu k f0 hrun hstep ho hnf hl hsame
+  obtain ⟨hI, h8⟩ := reachable hfp hinit gr ops hrun
+  exact (same_fcb_only_retransmit hfp hI h8 hstep ho hnf hl hsame).2
 
 /-- `retry_bound`: towards a live peripheral a request is transmitted at most `1 + max_retry_limit`
 times in a row without any reply. -/
@@ -205,65 +225,34 @@ theorem never_panics {fp : FdlParams} (hfp : FpOk fp) {slots : List (Option Peri
     grun fp (G.init slots gr) ops ≠ .panic ∧ grun fp (G.init slots gr) ops ≠ .hang :=
   ⟨(inv_run hfp ops _ (inv_init hinit gr)).1, (inv_run hfp ops _ (inv_init hinit gr)).2.1⟩
 
-/-! ### The full-strength form of `same_fcb_only_retransmit` and its refutation (open finding) -/
+/-! ### Regression: the witness of the former finding K_C08_diagreq_retry -/
 
-/-- `same_fcb_only_retransmit` without the exception: a repeated frame count bit means a request of
-the same service. -/
-def same_fcb_only_retransmit_full : Prop :=
-  ∀ (fp : FdlParams), FpOk fp → ∀ (slots : List (Option Peripheral)), InitOk fp slots →
-  ∀ (gr : Bool) (ops : List Op) (g g' : G) (now : Int) (hp : Bool) (i : Nat) (hd : Header) (pdu : Bytes)
-    (k : RKind) (f0 : FrameCountBit),
-    grun fp (G.init slots gr) ops = .ok g → gstep fp g (.tx now hp) = .ok g' → g'.o = .sent i hd pdu →
-    (g.sg i).expectFirst = false → (g.sg i).last = some (k, f0) → fcbOf hd = f0 → reqKind hd = k
-
-/-- Witness of `K_C08_diagreq_retry` (corpus/dp/06_K_C08_diagreq_retry.ops): bring-up, one data
-exchange, a Data_Exchange request that times out, `request_diagnostics()`, next poll. -/
+/-- corpus/dp/06_K_C08_diagreq_retry.ops: bring-up, one data exchange, a Data_Exchange request that
+times out, `request_diagnostics()`, next poll. -/
 def witness : List Op :=
   Ex.bringUp ++ [.tx 10000 false, .take, .reply 7 (Ex.dxReply [0xa5]), .take, .tx 11000 false, .take,
     .tx 12000 false, .take, .timeout 7, .take, .diagReq 1]
 
+/-- On the repaired code the next poll *retransmits the Data_Exchange request* (same service, same
+bit: `0x5d` again); the diagnostics request follows once that request is answered, with the toggled
+bit (`0x7c`). -/
 def witnessCheck : Bool :=
   match grun Ex.fp (G.init Ex.slots false) witness with
   | .ok g =>
     match gstep Ex.fp g (.tx 13000 false) with
     | .ok g' =>
-      match g'.o with
-      | .sent i hd _ =>
-        match (g.sg i).last with
-        | some (k, f0) =>
-          (g.sg i).expectFirst == false && fcbOf hd == f0 && k == .dx && reqKind hd == .diag &&
-          (g.sg i).diagReq && hd.fc.toByte == 0x5c
-        | none => false
-      | _ => false
+      (match g'.o, (g.sg 1).last with
+       | .sent 1 hd _, some (k, f0) =>
+         (g.sg 1).expectFirst == false && fcbOf hd == f0 && k == .dx && reqKind hd == .dx &&
+         (g.sg 1).diagReq && hd.fc.toByte == 0x5d
+       | _, _ => false) &&
+      (match grun Ex.fp g' [.take, .reply 7 (Ex.dxReply [0xa6]), .take, .tx 14000 false, .take, .tx 15000 false] with
+       | .ok g2 => (match g2.o with | .sent 1 hd _ => reqKind hd == .diag && hd.fc.toByte == 0x7c | _ => false)
+       | _ => false)
     | _ => false
   | _ => false
 
-theorem witness_checks : witnessCheck = true := by decide +kernel
-
-/-- The full-strength statement is false for the model (and for the code: the witness replays on the
-real implementation): after a timed-out Data_Exchange request (`0x5d`) a `request_diagnostics()` makes
-the retransmission a diagnostics request with the same bit (`0x5c`). -/
-theorem same_fcb_only_retransmit_full_false : ¬ same_fcb_only_retransmit_full := by
-  intro H
-  have hv := witness_checks
-  unfold witnessCheck at hv
-  split at hv
-  · rename_i g hg
-    split at hv
-    · rename_i g' hg'
-      split at hv
-      · rename_i i hd pdu ho
-        split at hv
-        · rename_i k f0 hl
-          simp only [Bool.and_eq_true, beq_iff_eq] at hv
-          obtain ⟨⟨⟨⟨⟨h1, h2⟩, h3⟩, h4⟩, _⟩, _⟩ := hv
-          have := H Ex.fp Ex.fp_ok Ex.slots Ex.init_ok false witness g g' 13000 false i hd pdu k f0 hg hg' ho h1 hl h2
-          rw [h3, h4] at this
-          cases this
-        · cases hv
-      · cases hv
-    · cases hv
-  · cases hv
+example : witnessCheck = true := by decide +kernel
 
 /-! ### Non-vacuity of the step theorems: states of a real history meet their hypotheses -/
 
